@@ -4,12 +4,12 @@ use cgmath::prelude::*;
 use cgmath::{Vector1, Vector2, Vector3, Vector4};
 use serde_json::json;
 
-use crate::clause;
-use crate::conv::*;
-use crate::fw::{Case, Clause, Extra, RunCfg};
-use crate::gen::{self, Rng, Tier};
-use crate::model::*;
-use crate::sc::{Ck, Sc};
+use cgv_core::clause;
+use cgv_core::conv::*;
+use cgv_core::fw::{Case, Clause, Extra, RunCfg};
+use cgv_core::gen::{self, Rng, Tier};
+use cgv_core::model::*;
+use cgv_core::sc::{Ck, Sc};
 
 fn gen_vecs(rng: &mut Rng, tier: Tier, n: usize, vecs: usize, scalars: usize) -> Case {
     let mut c = Case::new();
@@ -265,7 +265,7 @@ pub fn native_ints(cfg: &RunCfg, extra: &mut Extra) {
                 let t = |x: i128| x as $T;
                 let vu = Vector4::new(t(u[0]), t(u[1]), t(u[2]), t(u[3]));
                 let vv = Vector4::new(t(v[0]), t(v[1]), t(v[2]), t(v[3]));
-                let caught = crate::fw::catch(|| {
+                let caught = cgv_core::fw::catch(|| {
                 let mut bad: Option<String> = None;
                 macro_rules! chk {
                     ($name:expr, $got:expr, $exp:expr) => {{
@@ -444,7 +444,7 @@ pub fn native_ints(cfg: &RunCfg, extra: &mut Extra) {
                 let nz = u.iter().chain(v.iter()).all(|&x| x != 0);
                 let d: std::collections::HashSet<i128> = u.iter().cloned().collect();
                 if nz && d.len() == 4 {
-                    distinct.insert(h ^ crate::gen::hash_str($tag));
+                    distinct.insert(h ^ cgv_core::gen::hash_str($tag));
                 }
                 let _ = w;
                 if let Some(msg) = bad {
